@@ -4,6 +4,14 @@ import json
 import subprocess
 
 CLAIMED = {
+    "C02": dict(level="exploration",
+                text="Seeded search over workloads (planted error/warning/fatal counts incl. the 16-bit boundaries, options, stale outputs, "
+                     "1-3 sources per process) plus complete enumeration of one I/O fault at every open/write/seek/close of every output "
+                     "file of fixed scenarios; the property is checked as invariants over the recorded event history (source opens = "
+                     "file/pass boundaries, diagnostic writes, creates/unlinks), final disk and exit status of each simulated process.",
+                note="Trusted: simrt event log, recognition of diagnostic lines in native/GNU format under LANG=C; no fault is placed on the diagnostics channel.",
+                technique="deterministic simulation: history invariants over event log + I/O fault enumeration on output files",
+                design="4. C02"),
     "C03": dict(level="fault_enumeration",
                 text="Complete enumeration of storage faults on reference code files (every truncation, bit flips, field edits, "
                      "every crash point of the real asl code-file writer on the simulated disk) fed to every utility, plus seeded "
@@ -28,7 +36,7 @@ NA_PURE = {
     "C16": "metamorphic relation over source spelling; CR-LF/INCLUDE variants are different inputs, not schedules or faults",
     "C20": "diagnostic positions are a pure function of include/macro nesting of the input; no clock, fault or cross-file history involved",
 }
-PENDING = {k: "claimed in DESIGN.md; its check is still being built in this commit series" for k in ("C01", "C02", "C04", "C17", "C18", "C19")}
+PENDING = {k: "claimed in DESIGN.md; its check is still being built in this commit series" for k in ("C01", "C04", "C17", "C18", "C19")}
 
 ORDER = ["C01", "C02", "C03", "C04", "C17", "C18", "C19"]
 
